@@ -10,12 +10,13 @@ def run(ctx):
     info = sessin.build(ctx)
     ctx.assumptions += sessin.ASSUME + ['counterparty model: replays application messages as PossDup resends (OrigSendingTime <= SendingTime), runs of administrative messages as one GapFill, answers before continuing',
                                         'CompIDs match; decoding succeeds; the session is active']
-    ks = [(3, 1)] if ctx.tier == 'quick' else [(3, 1), (4, 1), (4, 2)]
-    for k, loss in ks:
+    ks = [(3, 1, 0)] if ctx.tier == 'quick' else [(3, 1, 0), (4, 1, 0), (4, 2, 0)]
+    ks += [tuple(int(x) for x in e.split(',')) for e in os.environ.get('VF_C20_EXTRA', '').split() if e]
+    for k, loss, fl in ks:
         w = k * (loss + 1) + 1
-        ctx.add(Harness('C20_gap_k%d_l%d' % (k, loss), VERIF + '/harness/C20_gap.c', defines=defs + ['K=%d' % k, 'MAXLOSS=%d' % loss, 'VF_MAXCOPY=40', 'VF_OUTMAX=%d' % (k + 1)], unwind=12,
+        ctx.add(Harness('C20_gap_k%d_l%d' % (k, loss) + ('_f%d' % fl if fl else ''), VERIF + '/harness/C20_gap.c', defines=defs + ['K=%d' % k, 'MAXLOSS=%d' % loss, 'MAXFLIGHT=%d' % fl, 'VF_MAXCOPY=40', 'VF_OUTMAX=%d' % (k + 1)], unwind=12,
                         unwindset=sessin.US,
-                        timeout=900 if ctx.tier == 'quick' else 2400, functions=FUN, stubs=sessin.STUBS,
+                        timeout=900 if ctx.tier == 'quick' else 2400, object_bits=14 if k > 4 else 12, functions=FUN, stubs=sessin.STUBS,
                         bounds='%d process() steps from a continuous session in sync at an arbitrary number n in 1..2^31-257 (FIX SeqNum domain); at most %d own messages lost before each new message; '
                                'lost and new messages are application or administrative at the generator\'s choice' % (k, loss),
                         desc='k-step recovery against the conformant counterparty generator'))
@@ -66,7 +67,8 @@ def replay(ctx, cx, h=None):
         for o in s['sent']:
             if o['type'] == '2': pend_from, pend_to = int(o.get('7', 0)), cnext
     delivered = set(sum([s['delivered'] for s in steps], []))
-    if not bad and pend_from >= pend_to:          # the counterparty has caught up
+    caught = at('cx_caught', len(hist) - 1) if 'cx_caught' in c else pend_from >= pend_to
+    if not bad and caught:          # the counterparty has caught up (the generator's own bookkeeping of its replay queue)
         if steps[-1]['recv'] != cnext: bad.append('expected inbound number %d but the counterparty continues with %d' % (steps[-1]['recv'], cnext))
         if not app_sent <= delivered: bad.append('application messages %s never delivered' % sorted(app_sent - delivered))
     return bool(bad), 'native history (type, MsgSeqNum, 0 new/1 PossDup resend/2 GapFill) %s from expected %d: %s | delivered %s | %s' % (hist, n, '; '.join(bad) or 'conforms', sorted(delivered), raw[-160:])
